@@ -390,6 +390,7 @@ def clamp_rule(chk, db):
 
 META_EXTRA = "SLOTS-W / SLOTS-U (grown characters written; range writes below the size slot); POST (size postconditions); NULFREE (no NUL-sensitive routine reachable from counted operations, overloads selected by argument kind); EXIT (early exits of the searches vs the specification's feasibility predicate); CLAMP (length clamps measure one object); PARAM."
 META = (META[0] + " " + META_EXTRA, META[1])
+META = (META[0] + ' SIB; IT4i (index-form downward scans reach index 0); RESUME (pattern searches move their candidate by one); CLAMP by viewed object.', META[1])
 
 
 def run(chk, tier):
